@@ -1,12 +1,14 @@
 #!/bin/sh
-# usage: tools_seeded.sh <mutant dir with patch.diff> <PROP>[,PROP2] [cases]  -- apply to /repo, run the quick checks, undo.
+# usage: tools_seeded.sh <mutant dir with patch.diff> <PROP>[,PROP2] [cases]
+# Runs the quick checks against a scratch copy of /repo's package with the seeded change applied (VERIF_REPO), so that
+# /repo itself is never modified while other batches import from it; evidence/replays go to a scratch VERIF_OUT.
 d="$1"; props="$2"; cases="${3:-}"
-if [ -n "$(git -C /repo status --porcelain --untracked-files=no)" ]; then echo "/repo has uncommitted changes"; exit 2; fi
-git -C /repo apply "$d/patch.diff" || exit 2
-out=$(mktemp -d /tmp/seedout_XXXX)
+tmp=$(mktemp -d /tmp/seedrepo_XXXX)
+cp -r /repo/openfilter "$tmp/openfilter"
+if ! patch -s -p1 -d "$tmp" < "$d/patch.diff"; then echo "PATCH DOES NOT APPLY"; rm -rf "$tmp"; exit 2; fi
+find "$tmp" -name __pycache__ -type d -prune -exec rm -rf {} + 2>/dev/null
 for p in $(echo "$props" | tr ',' ' '); do
   if [ -n "$cases" ]; then export VERIF_CASES="$cases"; fi
-  VERIF_OUT="$out" timeout 1500 /verif/check "$p" quick 2>/dev/null | grep -v OpenLineage | grep -v "^KNOWN" | cut -c1-330 | head -6
+  VERIF_REPO="$tmp" VERIF_OUT="$tmp/out" timeout 1500 /verif/check "$p" quick 2>/dev/null | grep -v OpenLineage | grep -v "^KNOWN" | cut -c1-330 | head -6
 done
-git -C /repo checkout -- .
-rm -rf "$out"
+rm -rf "$tmp"
